@@ -9,7 +9,7 @@ For every mutant bin/mutgen enumerates in /repo's non-test sources:
      (mutants-auto/propcov.json), cheapest first, and stop at the first VIOLATION.
 Results are appended to mutants-auto/results.jsonl (resumable: ids already present are skipped).
 
-usage: mutcampaign.py [--workers 5] [--ids 1,2,3] [--ops binop,lit+1] [--files a.go,b.go] [--sample N] [--all-props] [--redo-survivors]
+usage: mutcampaign.py [--repo-rev <commit>] [--workers 5] [--ids 1,2,3] [--ops binop,lit+1] [--files a.go,b.go] [--sample N] [--all-props] [--redo-survivors]
 """
 import os, sys, json, subprocess, shutil, time, random, threading
 from concurrent.futures import ThreadPoolExecutor
@@ -56,6 +56,8 @@ class Cov:
 
 SNAP = None
 
+REV = None
+
 def snapshot():
     """The checks are built from a copy of /verif's sources taken when the campaign starts, so
     that work on /verif can go on while it runs."""
@@ -63,7 +65,11 @@ def snapshot():
     SNAP = f"/tmp/mc-{os.getpid()}-src"
     os.makedirs(SNAP)
     sh(f"rsync -a --exclude .git --exclude .build --exclude bin --exclude evidence --exclude replays --exclude seeded --exclude mutants --exclude mutants-auto /verif/ {SNAP}/")
-    sh(f"rsync -a --exclude .git /repo/ {SNAP}/repo0/")
+    if REV:
+        os.makedirs(f"{SNAP}/repo0")
+        sh(f"git -C /repo archive {REV} | tar -x -C {SNAP}/repo0")
+    else:
+        sh(f"rsync -a --exclude .git /repo/ {SNAP}/repo0/")
     os.makedirs(f"{SNAP}/bin", exist_ok=True)
     shutil.copy("/verif/bin/vcheck", f"{SNAP}/bin/vcheck"); shutil.copy("/verif/bin/mutgen", f"{SNAP}/bin/mutgen")
 
@@ -136,9 +142,12 @@ def main():
         elif a == "--sample": sample = int(args.pop(0))
         elif a == "--all-props": all_props = True
         elif a == "--redo-survivors": redo = True
+        elif a == "--repo-rev":
+            global REV
+            REV = args.pop(0)
     if sh("git -C /repo status --porcelain").stdout.strip():
         print("/repo has local changes; refusing"); sys.exit(2)
-    base = sh("git -C /repo rev-parse --short HEAD").stdout.strip()
+    base = sh(f"git -C /repo rev-parse --short {REV or 'HEAD'}").stdout.strip()
     snapshot()
     ms = [json.loads(l) for l in sh(f"{SNAP}/bin/mutgen list {SNAP}/repo0").stdout.splitlines()]
     done = {}
